@@ -17,7 +17,8 @@ mv /tmp/mut/$ID.demo.rs $demo
 echo "== with change: demo"
 cargo test --offline --test $name 2>&1 | grep -E "^test result|error(\[|:)" | tail -3
 echo "== without change: demo"
-git stash push -q -- src
+# (no git stash: the stash is shared between worktrees of one repository)
+git checkout -q -- src
 cargo test --offline --test $name 2>&1 | grep -E "^test result|error(\[|:)" | tail -3
-git stash pop -q
+git apply $O/patch.confirm.diff
 git status --short | head -5
